@@ -15,6 +15,7 @@ pub mod c11;
 pub mod c12;
 pub mod c15;
 pub mod c16;
+pub mod c17;
 pub mod c18;
 pub mod c19;
 pub mod c20;
@@ -60,6 +61,7 @@ pub fn dispatch(id: &str, tier: Tier, replay: Option<&str>) {
         "c12" => c12::run(tier, replay),
         "c15" => c15::run(tier, replay),
         "c16" => c16::run(tier, replay),
+        "c17" => c17::run(tier, replay),
         "c18" => c18::run(tier, replay),
         "c19" => c19::run(tier, replay),
         "c20" => c20::run(tier, replay),
